@@ -49,6 +49,14 @@ pub struct Plan {
     pub stake: u64,
     #[serde(default)]
     pub stake_period: u64,
+    /// chain family: the producer keeps the transactions of this many blocks below its tip in memory
+    /// (`prune_after_blocks`); older bodies are on its disk only
+    #[serde(default = "default_prune")]
+    pub prune_after: u64,
+}
+
+fn default_prune() -> u64 {
+    8
 }
 
 fn gen(seed: u64, tier: Tier) -> Plan {
@@ -66,6 +74,7 @@ fn gen(seed: u64, tier: Tier) -> Plan {
         ops,
         stake: if rng.chance(1, 4) { 25_000 + rng.below(50_000) } else { 0 },
         stake_period: rng.range(2, 5),
+        prune_after: *rng.pick(&[1u64, 2, 3, 8, 8, 8]),
     }
 }
 
@@ -76,7 +85,7 @@ impl Scenario for C07 {
     fn meta(&self) -> Meta {
         Meta {
             level: "exploration",
-            rule: "run = real producer node (genesis produced from an issuance file on its simulated disk, then timer-driven bundling with the real mempool, staking transaction, golden tickets from the real MiningThread) + 1-2 observer nodes connected as static peers (announce -> fetch from the producer's disk -> verify -> add) + a scripted wallet that submits transactions through the producer's routing/verification path; genesis period in {3,4,5,8,20,100}, heartbeat in {0.2,1,5} s, issuance scale in {1e5,5e7,9e12}; 20..140/400 operations from {payment with random fee, payment with a routing hop to the producer, conflicting pair, dust payment, timer round of 1-3 s, long round (> 2 heartbeats), producer clock skew, observer crash+restart, a rival producer's valid block built on the producer's tip and delivered to it as a fetched peer block (so that the chain advances without draining the producer's pool)}; the network runs to quiescence after each (block fetches complete in request order). Oracle: no processor panics; every block returned by bundle_block becomes the producer's tip (blocks_created == producer-created blocks on its chain); at every quiescent point each connected observer's tip equals the producer's tip. distinct_nontrivial = distinct produced blocks that carried >= 1 fee-paying transaction and were offered to >= 1 observer.",
+            rule: "run = real producer node (genesis produced from an issuance file on its simulated disk, then timer-driven bundling with the real mempool, staking transaction, golden tickets from the real MiningThread) + 1-2 observer nodes connected as static peers (announce -> fetch from the producer's disk -> verify -> add) + a scripted wallet that submits transactions through the producer's routing/verification path; genesis period in {3,4,5,8,20,100}, heartbeat in {0.2,1,5} s, issuance scale in {1e5,5e7,9e12}; 20..140/400 operations from {payment with random fee, payment with a routing hop to the producer, conflicting pair, dust payment, timer round of 1-3 s, long round (> 2 heartbeats), producer clock skew, observer crash+restart, a rival producer's valid block built on the producer's tip and delivered to it as a fetched peer block (so that the chain advances without draining the producer's pool)}; the network runs to quiescence after each (block fetches complete in request order). A third of the runs is the chain family instead: a producer that builds on its own tip through Block::create with harness-made transactions and validates the result itself, over long histories, keeping the bodies of only 1, 2, 3 or 8 blocks below its tip in memory (prune_after_blocks), so that whatever its payout and rebroadcast computations read from older blocks has to come back from its disk. Oracle: no processor panics; every block returned by bundle_block becomes the producer's tip (blocks_created == producer-created blocks on its chain); at every quiescent point each connected observer's tip equals the producer's tip. distinct_nontrivial = distinct produced blocks that carried >= 1 fee-paying transaction and were offered to >= 1 observer.",
             real: &["ConsensusThread (genesis, bundle_block, add_blocks_from_mempool)", "Mempool::bundle_block/can_bundle_block", "Block::create/generate_consensus_values/validate", "MiningThread", "RoutingThread/VerificationThread on all nodes", "handshake, BlockchainSyncState, Storage"],
             stubs: &["SimNet", "fetch server over the producer's SimDisk", "SimClock with skew", "scripted wallet peer"],
             assumptions: &["event-granularity scheduling", "staking off"],
@@ -465,7 +474,7 @@ fn chain_family(plan: &Plan) -> RunResult {
     let gp = plan.gp.min(10);
     let params = Params { genesis_period: gp, heartbeat: 1000, n_users: 3, slips_per_user: 4, base_amount: plan.base_amount };
     let mut rng = Rng::new(mix(plan.seed, 70));
-    let mut c = match crate::util::guarded(|| Chain::new(plan.seed, params.clone(), 8)) {
+    let mut c = match crate::util::guarded(|| Chain::new(plan.seed, params.clone(), plan.prune_after.max(1))) {
         Ok(Ok(c)) => c,
         _ => {
             r.discarded = true;
